@@ -719,6 +719,8 @@ impl rustc_driver::Callbacks for Cb {
             rustc_hir::intravisit::Visitor::visit_body(&mut uc, hbody);
             f.push(("unsafe_blocks", J::Arr(uc.blocks.iter().map(|(s,)| cx.span(*s)).collect())));
             f.push(("mir", cx.body(did)));
+            let promoted: Vec<J> = tcx.promoted_mir(did.to_def_id()).iter().map(|b| cx.body_of(did, b)).collect();
+            f.push(("promoted", J::Arr(promoted)));
             fns.push(J::obj(f));
         }
 
